@@ -1,6 +1,6 @@
 SPECIFICATION Spec
 CONSTANTS MaxDepth = 3
- Fuel = 3
- FlipFuel = 2
+ Fuel = 2
+ FlipFuel = 1
 INVARIANT Emit
 CHECK_DEADLOCK FALSE
